@@ -344,9 +344,17 @@ class UCSolutionEnumerator():
                 + ([(choice[2],
                      self.generate_leftover_sample(choice[2], leftover))] if leftover > 0 else []))
 
+    def _one_trial_per_combination(self, trial_count: int) -> bool:
+        # Whether `trial_count` trials are a whole round in which every crossing combination appears exactly
+        # once. With a complex-window factor in the crossing a round has several trials per combination, and
+        # a leftover run can be as long as the number of combinations without being such a round.
+        return (trial_count == len(self._crossing_instances)
+                and self._crossing_is_unweighted
+                and self.__complex_crossing_instances == 1)
+
     def random_components(self, components_shape: RandomComponentsShape, trial_count: int, leftover: int) -> Components:
         crossing_permutation_index = random.randrange(0, components_shape.crossings_shape)
-        if trial_count == len(self._crossing_instances) and self._crossing_is_unweighted:
+        if self._one_trial_per_combination(trial_count):
             source_combination_indices = tuple([random.randrange(0, len)
                                                 for len in components_shape.combinations_shapes])
         else:
@@ -441,7 +449,7 @@ class UCSolutionEnumerator():
         # Generate the source combinations for the selected sequence.
         source_combinations = cast(List[dict], [])
         for i, p in enumerate(permutation_indices):
-            if trial_count == len(self._crossing_instances) and self._crossing_is_unweighted:
+            if self._one_trial_per_combination(trial_count):
                 component_for_p = components[1][p]
             else:
                 component_for_p = components[1][i]
@@ -636,7 +644,7 @@ class UCSolutionEnumerator():
         # of all combinations; in that case, we can just multiply the new segment
         # lengths into `solution_count`. Otherwise, we need to consider every choice of
         # `first_n` crossing combinations, and then multiply the
-        if first_n == len(self._crossing_instances) and self._crossing_is_unweighted:
+        if self._one_trial_per_combination(first_n):
             solution_count *= reduce(op.mul, components_shape.combinations_shapes, 1)
         else:
             solution_count = self.sum_combination_products(solution_count,
